@@ -137,171 +137,4 @@ theorem be3_ne_nil (t : Nat) : ∃ b bs, be 3 t = b :: bs := ⟨_, _, rfl⟩
 theorem encode_cons (i : Item) (tl : Bytes) : ∃ b bs, encode i ++ tl = b :: bs := by
   cases i <;> simp only [encode, header, be, List.cons_append] <;> exact ⟨_, _, rfl⟩
 
-mutual
-theorem dec_enc : ∀ (i : Item), i.Valid → ∀ (f : Nat) (rest : Bytes), (encode i).length ≤ f →
-    decode f (encode i ++ rest) = some (i, rest)
-  | .prim t v, hv, f, rest, hf => by
-    have hv' : tagOk t = true ∧ v.Valid := by simpa only [Item.Valid] using hv
-    obtain ⟨ht, hvv⟩ := hv'
-    cases f with
-    | zero => have := encode_length_ge (.prim t v); omega
-    | succ f =>
-      simp only [encode, List.append_assoc, decode]
-      rw [splitHeader_header _ _ _ _ (tagOk_lt t ht) (typeCode_lt v) (valBytes_length_lt v hvv)]
-      simp only [ht, if_true, typeCode_ne_one v, if_false]
-      rw [takeExact_append]
-      simp only
-      rw [takeExact_append' (zeros _) rest _ (zeros_length _)]
-      simp only [allZero_zeros, if_true, decodeVal_valBytes v hvv]
-  | .struct t ks, hv, f, rest, hf => by
-    have hv' : tagOk t = true ∧ validList ks ∧ (encodeList ks).length < 256 ^ 4 := by
-      simpa only [Item.Valid] using hv
-    obtain ⟨ht, hks, hlen⟩ := hv'
-    cases f with
-    | zero => have := encode_length_ge (.struct t ks); omega
-    | succ f =>
-      have hf' : (encodeList ks).length + 1 ≤ f := by
-        simp only [encode, List.length_append, header_length] at hf; omega
-      simp only [encode, List.append_assoc, decode]
-      rw [splitHeader_header _ _ _ _ (tagOk_lt t ht) (by decide) hlen]
-      simp only [ht, if_true]
-      rw [takeExact_append]
-      simp only [decs_encs ks hks f hf']
-theorem decs_encs : ∀ (ks : List Item), validList ks → ∀ (f : Nat), (encodeList ks).length + 1 ≤ f →
-    decodeList f (encodeList ks) = some ks
-  | [], _, f, _ => by
-    cases f <;> simp [encodeList, decodeList]
-  | i :: is, hv, f, hf => by
-    have hv' : i.Valid ∧ validList is := by simpa only [validList] using hv
-    obtain ⟨hi, his⟩ := hv'
-    have h8 := encode_length_ge i
-    simp only [encodeList, List.length_append] at hf
-    cases f with
-    | zero => omega
-    | succ f =>
-      simp only [encodeList]
-      obtain ⟨b, bs, hb⟩ := encode_cons i (encodeList is)
-      rw [hb]
-      simp only [decodeList]
-      rw [← hb, dec_enc i hi f (encodeList is) (by omega)]
-      simp only [decs_encs is his f (by omega)]
-end
-
-/-! ### items: everything the decoder accepts is the encoding of a valid item -/
-
-theorem dec_inv : ∀ (f : Nat),
-    (∀ (bs : Bytes) (i : Item) (rest : Bytes), decode f bs = some (i, rest) → i.Valid ∧ bs = encode i ++ rest) ∧
-    (∀ (bs : Bytes) (ks : List Item), decodeList f bs = some ks → validList ks ∧ bs = encodeList ks) := by
-  intro f
-  induction f with
-  | zero =>
-    refine ⟨?_, ?_⟩
-    · intro bs i rest h; simp [decode] at h
-    · intro bs ks h
-      cases bs with
-      | nil => simp [decodeList] at h; subst h; simp [validList, encodeList]
-      | cons b bs => simp [decodeList] at h
-  | succ f ih =>
-    refine ⟨?_, ?_⟩
-    · intro bs i rest h
-      simp only [decode] at h
-      split at h
-      · cases h
-      · rename_i t ty len rest0 hsh
-        obtain ⟨hbs, _, _, hl⟩ := splitHeader_some _ _ _ _ _ hsh
-        split at h
-        · rename_i htag
-          split at h
-          · rename_i hty
-            split at h
-            · cases h
-            · rename_i body rest' hte
-              obtain ⟨hr0, hbl⟩ := takeExact_some _ _ _ _ hte
-              split at h
-              · cases h
-              · rename_i ks hks
-                simp only [Option.some.injEq, Prod.mk.injEq] at h
-                obtain ⟨rfl, rfl⟩ := h
-                obtain ⟨hvl, hbody⟩ := ih.2 _ _ hks
-                subst hty
-                refine ⟨?_, ?_⟩
-                · simp only [Item.Valid]
-                  exact ⟨htag, hvl, by rw [← hbody, hbl]; exact hl⟩
-                · simp only [encode]
-                  rw [hbs, hr0, ← hbody, hbl]
-                  simp only [List.append_assoc]
-          · split at h
-            · cases h
-            · rename_i value r1 hte1
-              obtain ⟨hr0, hvl⟩ := takeExact_some _ _ _ _ hte1
-              split at h
-              · cases h
-              · rename_i pad r2 hte2
-                obtain ⟨hr1, hpl⟩ := takeExact_some _ _ _ _ hte2
-                split at h
-                · rename_i hz
-                  split at h
-                  · cases h
-                  · rename_i v hdv
-                    simp only [Option.some.injEq, Prod.mk.injEq] at h
-                    obtain ⟨rfl, rfl⟩ := h
-                    obtain ⟨hvv, htc, hvb⟩ := decodeVal_some _ _ _ _ hvl hl hdv
-                    refine ⟨?_, ?_⟩
-                    · simp only [Item.Valid]; exact ⟨htag, hvv⟩
-                    · simp only [encode]
-                      have hp := eq_zeros_of_allZero pad hz
-                      rw [hpl] at hp
-                      rw [hbs, hr0, hr1, htc, hvb, hvl, hp]
-                      simp only [List.append_assoc]
-                · cases h
-        · cases h
-    · intro bs ks h
-      cases bs with
-      | nil => simp [decodeList] at h; subst h; simp [validList, encodeList]
-      | cons b bs =>
-        simp only [decodeList] at h
-        split at h
-        · cases h
-        · rename_i i rest hd
-          split at h
-          · cases h
-          · rename_i is his
-            simp only [Option.some.injEq] at h
-            subst h
-            obtain ⟨hi, hbs⟩ := ih.1 _ _ _ hd
-            obtain ⟨hv, hrest⟩ := ih.2 _ _ his
-            refine ⟨?_, ?_⟩
-            · simp only [validList]; exact ⟨hi, hv⟩
-            · simp only [encodeList]; rw [hbs, hrest]
-
-/-! ### well-formedness of everything `encode` produces -/
-
-theorem primOk_of_valid (v : PVal) (h : v.Valid) : primOk v.typeCode v.valBytes.length v.valBytes := by
-  cases v with
-  | boolean b => cases b <;> simp [primOk, PVal.typeCode, PVal.valBytes, be]
-  | bigInteger x len =>
-    simp only [PVal.Valid] at h
-    simp [primOk, PVal.typeCode, PVal.valBytes, h.1, h.2.1]
-  | _ => simp [primOk, PVal.typeCode, PVal.valBytes]
-
-mutual
-theorem enc_wf : ∀ (i : Item), i.Valid → WF (encode i)
-  | .prim t v, hv => by
-    have hv' : tagOk t = true ∧ v.Valid := by simpa only [Item.Valid] using hv
-    have := WF.prim t v.typeCode v.valBytes.length v.valBytes hv'.1 rfl
-      (valBytes_length_lt v hv'.2) (primOk_of_valid v hv'.2)
-    simpa only [encode, header, List.append_assoc] using this
-  | .struct t ks, hv => by
-    have hv' : tagOk t = true ∧ validList ks ∧ (encodeList ks).length < 256 ^ 4 := by
-      simpa only [Item.Valid] using hv
-    have := WF.struct t (encodeList ks) hv'.1 hv'.2.2 (encs_wf ks hv'.2.1)
-    simpa only [encode, header, List.append_assoc] using this
-theorem encs_wf : ∀ (ks : List Item), validList ks → WFList (encodeList ks)
-  | [], _ => by simp only [encodeList]; exact WFList.nil
-  | i :: is, hv => by
-    have hv' : i.Valid ∧ validList is := by simpa only [validList] using hv
-    simp only [encodeList]
-    exact WFList.cons _ _ (enc_wf i hv'.1) (encs_wf is hv'.2)
-end
-
 end Kmip.TTLV
